@@ -10,6 +10,8 @@ mod c16;
 mod engine;
 mod hllm;
 mod c02;
+mod thetam;
+mod c04;
 mod cpcm;
 mod c05;
 mod replay;
@@ -63,6 +65,7 @@ fn main() {
         }
         "C16" => c16::run(&Ctx::new("C16", tier)),
         "C05" => c05::run(&Ctx::new("C05", tier).with_filter(|k| !k.starts_with("cpc.bounds"))),
+        "C04" => c04::run(&Ctx::new("C04", tier).with_filter(|k| !k.starts_with("theta.bounds"))),
         "C02" => c02::run(&Ctx::new("C02", tier).with_filter(|k| !k.starts_with("hll.bounds"))),
         other => {
             eprintln!("unknown check {other}");
